@@ -68,6 +68,13 @@ def rem (x y : Int) : Option Int := if y = 0 then none else some (Int.tmod x y)
 def mapGet {κ ν : Type} [BEq κ] (m : List (κ × ν)) (k : κ) (zero : ν) : ν :=
   ((m.find? fun e => e.1 == k).map (·.2)).getD zero
 
+/-- `_, ok := m[k]`. -/
+def mapHas {κ ν : Type} [BEq κ] (m : List (κ × ν)) (k : κ) : Bool :=
+  (m.find? fun e => e.1 == k).isSome
+
+/-- `make([]T, 0, c)`: panics when the capacity is negative; the capacity itself is not modelled. -/
+def makeCap {α : Type} (c : Int) : Option (List α) := if c < 0 then none else some []
+
 /-- `copy(dst, src)`: overwrite the first `min` elements. -/
 def copyInto {α : Type} (dst src : List α) : List α :=
   src.take dst.length ++ dst.drop (min dst.length src.length)
